@@ -44,6 +44,10 @@ fn spec(prop: &str) -> CheckSpec {
             gates.push(Gate { counter: "inert_sequences_checked", min_quick: 20_000, min_thorough: 400_000 });
             gates.push(Gate { counter: "enumerated_inert_sequences", min_quick: 10_000, min_thorough: 10_000 });
         }
+        "C01" => {
+            rule = "Every public call of every history runs under catch_unwind in a build with overflow checks and debug assertions on (thorough: the same workload again in the plain release build); after every call EVERY read-only public operation is exercised (dump, text, view, lines, line(n), cursor, size, Line::cells/chars/text/chunks with four predicates incl. adversarial ones, Debug, Cell::width) and the history is replayed through util::TextCollector (feed_str/resize/flush). A worker process that dies (abort, stack overflow) or stops returning is re-run unit by unit in fresh processes; only a reproducible death or non-return is a violation. Work-proportionality: a call whose thread CPU time exceeds 0.25 s is compared with 200x the calibrated cost of the work it requests (characters, REP counts, screen area, retained lines); a breach confirmed by the minimum of three isolated re-runs and > 0.5 s is a violation. Workload: G1 streams with 6% parameters > 65535, > 32 parameters, > 6 sub-parameters, count-65535 commands, 1-64 KiB scalar soup (G6), 14% resizes between arbitrary sizes, sizes 1x1..40x12 (thorough ..512x128, 4096x1, 1x4096), limits unlimited/0/1/2/9/10/11/25/100/1000/100000, Changes consumed/partially consumed/dropped; plus ALL sequences of 3 calls over a 54-atom alphabet. distinct_nontrivial = distinct (call kind, limit class, cols class, rows class, parser state at call start, parameters beyond the promised range?).";
+            gates.push(Gate { counter: "calls", min_quick: 200_000, min_thorough: 2_000_000 });
+        }
         "C02" => {
             rule = C02_RULE;
             gates.push(Gate { counter: "calls", min_quick: 100_000, min_thorough: 1_000_000 });
@@ -58,6 +62,12 @@ fn spec(prop: &str) -> CheckSpec {
             rule = "Relational monitor around every resize() on the primary screen (unlimited scrollback): logical lines (cells with pens joined over soft-wrap marks, trailing blanks stripped) above the cursor's line unchanged; cursor stays in its logical line, text before it intact, same offset when it was on a character (wrap-pending = last column); lines from the cursor's on are unchanged or (last surviving one) cut short, never altered/reordered/invented. Contents come from arbitrary G1 histories without alternate-screen tokens (marks set and cleared by editing, coloured blanks, cursor anywhere) followed by chains of 1-6 resizes between sizes 1..14x1..8 and up to 40x12 (200x60 thorough), interleaved with more input. distinct_nontrivial = distinct (width change x height change, cursor on char / in blanks / wrap-pending, rows spanned by the cursor's line, scrollback present, old width class).";
             gates.push(Gate { counter: "resizes_checked", min_quick: 100_000, min_thorough: 1_000_000 });
             gates.push(Gate { counter: "resizes_with_cursor_on_a_character", min_quick: 5_000, min_thorough: 50_000 });
+        }
+        "C11" => {
+            rule = "Two real terminals side by side: the original (arbitrary G1 history incl. resizes, both screens, all modes/margins/tabs/charsets/pens/saved contexts, cut at a random character - also inside ESC/CSI/DCS/OSC sequences and parameter lists) and a fresh terminal of the same size fed orig.dump(). Compared right after restoring and after EVERY continuation call (the remainder of the cut input, then one of 4 probe scripts whose steps each expose one hidden component, or a random G1 continuation): visible cells/pens/soft-wrap marks, cursor position/visibility, cursor-key mode, the dump() string and the hooked hidden state (scrollback excluded). Thorough/quick also try EVERY cut position of short histories, and the 2112-state enumeration of the 'restore saved cursor, then move relatively' dump branch on 6x8. A divergence whose dump-time state satisfies a known-finding predicate (C11-a/b/c, KNOWN_FINDINGS.txt) is filed as that finding, any other is a violation. distinct_nontrivial = distinct (parser state at the cut, modes bitset, margin shape, saved contexts set, tabs customised, in a known-finding state?).";
+            gates.push(Gate { counter: "round_trips", min_quick: 40_000, min_thorough: 500_000 });
+            gates.push(Gate { counter: "dumps_with_parser_inside_a_sequence", min_quick: 5_000, min_thorough: 50_000 });
+            gates.push(Gate { counter: "dumps_on_alternate_screen", min_quick: 3_000, min_thorough: 30_000 });
         }
         "C12" => {
             rule = "Three or more real terminals per case: the same string fed by one feed_str, by feed() per character and by several random splittings (and, for 12 short inputs, by EVERY subset of cut points) must end with identical view(), cursor(), cursor-key mode, dump() and hooked hidden state, and - unlimited scrollback - identical lines(); while the alternate screen shows or under a finite limit a normalising feed_str(\"\") precedes the comparison (feed() never trims). distinct_nontrivial = distinct (parser state at a cut point, limit class, parameter / sub-parameter count at the cut).";
@@ -113,19 +123,22 @@ fn spec(prop: &str) -> CheckSpec {
             "resize content (re-wrapped cells, cursor) is adopted from the real terminal and judged by C02/C10/C16, not here",
         ],
         gates,
-        watchdog: (600, 3600),
+        watchdog: (240, 5400),
         exhaustive,
     }
 }
 
-fn worker(ctx: &Ctx, rep: &mut Report) {
+fn worker(ctx: &Ctx, rep: &mut Report, status: Option<&str>) {
     match ctx.prop.as_str() {
+        "C01" => mon::c01::work(ctx, rep, status),
+        "C01miri" => mon::c01::work_miri(ctx, rep),
         "C04" | "C05" | "C06" | "C07" => mon::diffmon::work(ctx, rep, (6000, 120_000), (3, 4), true),
         "C08" | "C17" | "C18" => mon::diffmon::work(ctx, rep, (8000, 150_000), (3, 4), false),
         "C03" => mon::c03::work(ctx, rep),
         "C20" => mon::c20::work(ctx, rep),
         "C02" => mon::callmon::work_c02(ctx, rep),
         "C09" => mon::relmon::work_c09(ctx, rep),
+        "C11" => mon::c11::work(ctx, rep),
         "C10" => mon::relmon::work_c10(ctx, rep),
         "C12" => mon::relmon::work_c12(ctx, rep),
         "C14" => mon::relmon::work_c14(ctx, rep),
@@ -145,7 +158,13 @@ fn replay(prop: &str, h: &hist::History, rep: &mut Report) {
             callmon::c02_history(h, 1, rep);
             mon::diffmon::run_one(prop, h, rep);
         }
+        "C01" => {
+            for s in 0..4 {
+                mon::c01::c01_history(h, s, rep);
+            }
+        }
         "C09" => relmon::c09_history(h, rep),
+        "C11" => mon::c11::c11_history(h, rep),
         "C10" => relmon::c10_history(h, rep),
         "C12" => relmon::c12_history(h, rep),
         "C13" => {
@@ -190,8 +209,23 @@ fn main() {
             nshards: args[6].parse().unwrap(),
         };
         let mut rep = Report::new();
-        worker(&ctx, &mut rep);
+        let status = format!("{}.cur", args[7]);
+        worker(&ctx, &mut rep, Some(&status));
         std::fs::write(&args[7], rep.to_text()).expect("write report");
+        return;
+    }
+    if args.len() >= 7 && args[1] == "--single" {
+        // one C01 work unit in a process of its own (isolation of aborts / non-returning calls)
+        let ctx = Ctx { prop: args[2].clone(), thorough: args[3] == "thorough", seed: args[4].parse().unwrap(), shard: 0, nshards: 1 };
+        let u: usize = args[5].parse().unwrap();
+        let h = mon::c01::unit_history(&ctx, u);
+        std::fs::write(&args[6], h.to_text()).expect("write history");
+        let mut rep = Report::new();
+        mon::c01::c01_history(&h, rng::mix(ctx.seed, u as u64), &mut rep);
+        let mut t = h.to_text();
+        t.push_str("OK\n");
+        t.push_str(&rep.to_text());
+        std::fs::write(&args[6], t).expect("write result");
         return;
     }
     if args.len() < 3 {
